@@ -1387,6 +1387,15 @@ impl World {
         self.observe(slot, Ctx::Beat);
     }
 
+    /// The members `slot` has scheduled for deletion at THIS virtual instant (the snapshot's set dates from the last
+    /// monitored step of the slot; the clock may have moved since).
+    pub fn sched_now(&self, slot: usize) -> BTreeSet<usize> {
+        match self.slots[slot].cc.as_ref() {
+            Some(cc) => cc.scheduled_for_deletion_nodes().filter_map(|id| self.by_id.get(id).copied()).collect(),
+            None => BTreeSet::new(),
+        }
+    }
+
     pub async fn advance(&mut self, d: Duration) {
         tokio::time::advance(d).await;
         self.note(format!("advance {:?}", d));
